@@ -27,7 +27,7 @@ each modelled in `Model/IovecApi.lean` and exercised by the `iovec` corresponden
 import Woodpile.Proofs.IovecApi
 
 namespace Woodpile.Props.C03A
-open Woodpile.Iovec Woodpile.Arena
+open Woodpile.Iovec Woodpile.Iovec.Api Woodpile.Arena
 open Woodpile.Pipe (Cell Pipe)
 
 /-- `new_from_slices(slices, arena)` over freshly lent caller buffers `bufs` (empty ones included),
